@@ -174,6 +174,9 @@ func Open(dir string, primary bool, opts ...Option) (*Node, error) {
 	return n, nil
 }
 
+// TryErr runs f and returns the panic message, if any.
+func TryErr(f func()) (p string) { return tryErr(f) }
+
 func tryErr(f func()) (p string) {
 	defer func() {
 		if r := recover(); r != nil {
